@@ -72,6 +72,7 @@ def case_s(draw):
         # the index is re-created in place (create_in over the same directory / storage) while A's writer is open;
         # the writer attempt that follows must still be refused
         "recreate_at": draw(st.one_of(st.none(), st.none(), st.integers(1, 40))),
+        "stale_cancel": draw(st.booleans()),
     }
 
 
@@ -236,6 +237,8 @@ def _run(case, out):
                 else:
                     w.cancel()
                     outcome = "cancelled"
+                if depth == 0 and front == "seg":
+                    finished_writers.append(w)
             attempts.append({"owner": owner, "held": held_at_start, "outcome": outcome,
                              "elapsed": time.time() - t0, "timeout": script["timeout"]})
             if outcome == "committed":
@@ -243,6 +246,7 @@ def _run(case, out):
             return outcome
 
         pending_async = []
+        finished_writers = []
         recreated = []
         nestset = set(case["nest_at"])
 
@@ -420,6 +424,39 @@ def _run(case, out):
         if inconclusive:
             stop_bystander()
             return
+        # a stale cancel() on the finished main writer (a `finally: w.cancel()`) while the next writer is open must not
+        # disturb that writer or let a third one in
+        if finished_writers and case.get("stale_cancel") and not recreated:
+            out.label("stale_cancel_on_finished_writer")
+            dst, _ = storage_for("D")
+            dix = dst.open_index()
+            try:
+                dw = dix.writer(timeout=0)
+            except LockError:
+                out.fail("c04.lock_still_held_after_all_writers_finished", {"holder": mon.holder})
+                stop_bystander()
+                return
+            try:
+                finished_writers[0].cancel()
+            except Exception:
+                pass   # refusing (the unchanged tree raises IndexingError) is fine
+            est, _ = storage_for("E")
+            try:
+                ew = est.open_index().writer(timeout=0)
+            except LockError:
+                pass
+            else:
+                out.fail("c04.second_writer_admitted_while_lock_held", {"owner": "E", "held_by": "D", "after": "stale cancel() of a finished writer"})
+                ew.cancel()
+            try:
+                dw.add_document(k=u"D_0", t=[u"a", u"b"], n=3)
+                dw.commit(merge=False)
+                log.append(("D", ["D_0"], []))
+            except Exception as e:
+                out.fail("c04.writer_fails_after_stale_cancel_of_another:%s" % type(e).__name__,
+                         {"error": "".join(traceback.format_exception(type(e), e, e.__traceback__))[-700:]})
+                stop_bystander()
+                return
         # after everything: the lock is free
         vst, _ = storage_for("verify")
         vix = vst.open_index()
